@@ -501,25 +501,11 @@ def run_family(ctx, prop):
                 ctx.violation(what + '  [extended scenario, not modelled]', dict(rep, kind=kind))
         ctx.notes.append('extended scenarios (pause_dispatching around a pull, start_dispatching at any moment incl. after close, callbacks that work '
                          'and then close, cancellation clean-up slower than a heartbeat interval) are evaluated by the property oracle only')
-    # ---- application-session layer (ITCH / OUCH / SQF on top of soup): property oracle only, not modelled in Lean
+    # ---- application-session layer (ITCH / OUCH / SQF / ASN.1 on top of soup): implementation run, step-log replay through the Lean
+    # product machine Model/AppSession.lean, property oracle (harness/app_sessions.py)
     if prop in ('C04', 'C05', 'C06'):
         import app_sessions as AS
-        n_app = 300 if ctx.tier == 'quick' else 6000
-        for _ in range(n_app):
-            r = random.Random(rng.random())
-            sc = AS.gen_app_scenario(r)
-            try:
-                out = AS.run_app_scenario(sc['kind'], sc['mode'], sc['cb_beh'], sc['msg_beh'], sc['script'])
-            except Exception as e:   # noqa
-                ctx.violation(f'running the application-session scenario raised {type(e).__name__}: {e}', {'kind': 'scenario', 'app_scenario': sc})
-                continue
-            ctx.case({'app_scenario': {k: (v if k != 'script' else v[:8]) for k, v in sc.items()}}, nontrivial=len(out['obs']) >= 2,
-                     sample_every=997)
-            ctx.count('app:' + sc['kind'] + ':' + sc['mode'])
-            for what, kind in AS.app_oracle(sc, out, prop):
-                ctx.violation(what, {'kind': kind, 'app_scenario': sc})
-        ctx.notes.append('application-session layer (ITCH/OUCH/SQF ClientSession: second queue, its dispatcher, close event) is exercised '
-                         'by the property oracle only; the Lean session machine models the SoupBinTCP/FIX session beneath it')
+        AS.run_family_app(ctx, prop)
 
 
 def replay_family(ctx, prop, path):
@@ -527,17 +513,7 @@ def replay_family(ctx, prop, path):
     rep = r.get('replay') or (r.get('no_longer_checks') or [{}])[-1].get('case') or r
     if 'app_scenario' in rep:
         import app_sessions as AS
-        sc = rep['app_scenario']
-        fix = lambda b: tuple(b) if isinstance(b, list) else b
-        sc = dict(sc, cb_beh=fix(sc['cb_beh']), msg_beh={int(k): fix(v) for k, v in sc['msg_beh'].items()},
-                  script=[tuple(x) for x in sc['script']])
-        out = AS.run_app_scenario(sc['kind'], sc['mode'], sc['cb_beh'], sc['msg_beh'], sc['script'])
-        ctx.cov['rule'] = 'replay of ' + path
-        ctx.case('app-replay'); ctx.case('replay-marker')
-        print('scenario:', sc); print('observed:', out['obs'], 'closed', out['soup_closed'], out['app_closed'], 'pending', out['pending'], 'alive', out['alive'])
-        for what, kind in AS.app_oracle(sc, out, prop):
-            print('ORACLE:', what)
-            ctx.violation(what, {'kind': kind, 'app_scenario': sc})
+        AS.replay_app(ctx, prop, rep)
         return
     cfg, script, seed = cfg_from_json(rep['cfg']), script_from_json(rep['script']), rep.get('seed', 0)
     res = run_one(cfg, script, seed, rep.get('settle', 0.05))
